@@ -24,7 +24,7 @@ ASSUMPTIONS = ["weak variables/tools come from separate name universes (W*, w*),
 TIME_BUDGET = {"quick": 240, "thorough": 1500}
 BATCH = 16
 
-ID_EDITS = ["frag", "frag", "move_frag", "var_value", "var_value", "varlist", "varlist", "dep_add", "dep_remove",
+ID_EDITS = ["inc_mod", "inc_mod", "inc_toggle", "frag", "frag", "move_frag", "var_value", "var_value", "varlist", "varlist", "dep_add", "dep_remove",
             "dep_param", "dep_swap", "provide_var", "tool_attr", "tool_attr", "tool_use", "file_add", "define",
             "default_env", "class_frag", "class_frag", "provide_deps", "flag"]
 I = st.integers(0, 30)
